@@ -162,6 +162,10 @@ class Walker:
         if isinstance(v, GenObj):
             n, new = self.oid(v)
             return ("gen", n, v.fn.name, v.state)
+        if isinstance(v, EnvGen):
+            return ("envgen", v.name, v.state)
+        if isinstance(v, EnvGenMethod):
+            return ("envgenm", v.gen.name, v.name)
         if isinstance(v, UserFn):
             return ("fn", v.name)
         if isinstance(v, UserCM):
@@ -359,6 +363,8 @@ class Env:
         self.fns = {}
         self.cms = {}
         self.fault_used = False
+        self.gens = {}
+        self.block_exc = {}
         self.trace = []          # (event description, answer description)
         self.vals = {}
 
@@ -368,11 +374,20 @@ class Env:
         return s
 
     def fn(self, name, flavour="any"):
+        if name in self.fns:
+            return self.fns[name]
         f = UserFn(name, flavour)
         self.fns[name] = f
         return f
 
+    def cm(self, name, kind="async"):
+        if name not in self.cms:
+            self.cms[name] = UserCM(name, kind)
+        return self.cms[name]
+
     def val(self, name):
+        if name in self.vals:
+            return self.vals[name]
         v = Opaque(z3.Const(name, Val))
         self.vals[name] = v
         return v
@@ -518,6 +533,7 @@ class Verifier:
         impl_i = Interp(ctx, "impl", opts)
         ref_i = Interp(ctx, "ref", opts)
         self.impl_i, self.ref_i = impl_i, ref_i
+        impl_i.env = ref_i.env = env
         a = job.mk(ctx, env)
         impl_fn = self.resolve(self.impl_prog, job.impl)
         ref_fn = self.resolve(self.ref_prog, job.ref)
@@ -544,6 +560,9 @@ class Verifier:
                 while True:
                     yield Ev("LoopHead", PROTO_NODE, None, site=(-1, 0))
                     ops = tuple(proto.available(H))
+                    if not ops:
+                        yield Ev("Done", ("return", None))
+                        return
                     resp = yield Ev("NextOp", ops)
                     op = resp[1]
                     try:
@@ -684,6 +703,11 @@ class Verifier:
             d = f"call {fn.name}({','.join(describe(x) for x in ev.payload[1])})"
             if c == "ret":
                 kind = job.opts.get("ret_kinds", {}).get(fn.name)
+                if kind == "envgen":
+                    g = EnvGen(f"{fn.name}{len(env.gens)}")
+                    env.gens[g.name] = g
+                    self.trace.append((d, f"ret {g.name}"))
+                    return ("ret", g)
                 v = Opaque(ctx.fresh(Val, f"{fn.name}_ret"))
                 self.trace.append((d, f"ret {v.t}"))
                 return ("ret", v)
@@ -727,6 +751,66 @@ class Verifier:
             e = ExcVal("UserError" if c == "raise" else "Cancelled", ident=("await", ctx.evseq), origin="env")
             self.trace.append((f"await {describe(ev.payload[0])}", f"raise {e.cls}"))
             return ("raise", e)
+        if ev.kind == "CM":
+            cm, op, args = ev.payload
+            d = f"{cm.name}.{op}({','.join(describe(x) for x in args)})"
+            if op == "enter":
+                opts = ["ret", "raise"]
+                c = opts[ctx.choose(2, f"cm enter {cm.name}")]
+                if c == "ret":
+                    cm.held += 1
+                    v = Opaque(ctx.fresh(Val, f"{cm.name}_value"))
+                    self.trace.append((d, f"ret {v.t}"))
+                    return ("ret", v)
+                e = ExcVal("UserError", ident=("cm-enter", cm.name, ctx.evseq), origin="env")
+                self.trace.append((d, "raise UserError"))
+                return ("raise", e)
+            opts = ["falsy", "truthy", "raise"]
+            c = opts[ctx.choose(3, f"cm exit {cm.name}")]
+            cm.held -= 1
+            self.trace.append((d, c))
+            if c == "raise":
+                return ("raise", ExcVal("UserError2", ident=("cm-exit", cm.name, ctx.evseq), origin="env"))
+            return ("ret", c == "truthy")
+        if ev.kind == "GenOp":
+            gen, op, arg = ev.payload
+            gen.ops += 1
+            tag = f"{gen.name}.{op}#{gen.ops}"
+            if gen.state == "done" and op != "throw":
+                self.trace.append((f"gen {op}", "stop (finished)"))
+                return ("stop", ("finished", gen.name)) if op != "close" else ("ok", None)
+            if op in ("next", "send"):
+                opts = ["yield", "stop", "raise"]
+            elif op == "throw":
+                opts = ["yield", "stop", "raise-new", "raise-rt-cause"]
+                if not (isinstance(arg, ExcVal) and arg.cls in ("StopIteration", "StopAsyncIteration")):
+                    # A3 (PEP 479/525): no Stop(Async)Iteration - thrown in or fresh - can leave a generator as such
+                    opts += ["raise-same-type", "raise-same"]
+            else:
+                opts = ["ok", "raise-ignored", "raise"]
+            c = opts[ctx.choose(len(opts), f"gen {op}")]
+            self.trace.append((f"gen {gen.name}.{op}({describe(arg) if arg is not None else ''})", c))
+            if c == "yield":
+                gen.state = "suspended"
+                return ("yield", Opaque(ctx.fresh(Val, "genval")))
+            gen.state = "done"
+            if c == "ok":
+                return ("ok", None)
+            if c == "stop":
+                return ("stop", ("stop", tag))
+            if c == "raise-same":
+                return ("raise", arg)
+            if c == "raise-rt-cause":
+                e = ExcVal("RuntimeError", ident=("rt-cause", tag), origin="env")
+                e.cause = arg
+                e.context = arg
+                return ("raise", e)
+            if c == "raise-same-type":
+                e = ExcVal(arg.cls if isinstance(arg, ExcVal) else "UserError", ident=("same-type", tag), origin="env")
+                return ("raise", e)
+            if c == "raise-ignored":
+                return ("raise", ExcVal("RuntimeError", ident=("ignored GeneratorExit", tag), origin="env"))
+            return ("raise", ExcVal("UserError", ident=("gen", tag), origin="env"))
         if ev.kind == "NextOp":
             ops = ev.payload[0]
             c = ctx.choose(len(ops), "op") if len(ops) > 1 else 0
@@ -798,6 +882,10 @@ class Verifier:
             return o.t == NONE
         if isinstance(a, ExcVal) and isinstance(b, ExcVal):
             return a is b or (a.cls == b.cls and a.origin == "lib" and b.origin == "lib")
+        if isinstance(a, ExcClass) and isinstance(b, ExcClass):
+            return a.name == b.name
+        if isinstance(a, Sentinel) and isinstance(b, Sentinel):
+            return a.name == b.name
         if isinstance(a, dict) and isinstance(b, dict):
             if list(a.keys()) != list(b.keys()):
                 return False
@@ -913,6 +1001,15 @@ class Verifier:
                 f = self.val_eq(tuple(ie.payload[1]), tuple(re_.payload[1]))
         elif ie.kind == "Yielded":
             f = self.val_eq(ie.payload[0], re_.payload[0])
+        elif ie.kind == "CM":
+            f = ie.payload[0] is re_.payload[0] and ie.payload[1] == re_.payload[1]
+            if f:
+                f = self.val_eq(tuple(ie.payload[2]), tuple(re_.payload[2]))
+        elif ie.kind == "GenOp":
+            f = ie.payload[0] is re_.payload[0] and ie.payload[1] == re_.payload[1]
+            if f:
+                a, b = ie.payload[2], re_.payload[2]
+                f = (a is b) if isinstance(a, ExcVal) or isinstance(b, ExcVal) else self.val_eq(a, b)
         elif ie.kind == "NextOp":
             f = ie.payload[0] == re_.payload[0]
         elif ie.kind == "Result":
